@@ -78,7 +78,10 @@ package pypi
 //@   ensures op<=: theEcosystem().NewVersion(c.version).1 == nil && c.operator == "<=" ==> result == (version.Compare(theEcosystem().NewVersion(c.version).0) <= 0)   [C02 C20]
 //@   ensures op>: theEcosystem().NewVersion(c.version).1 == nil && c.operator == ">" ==> result == (version.Compare(theEcosystem().NewVersion(c.version).0) > 0)   [C02 C20]
 //@   ensures op>=: theEcosystem().NewVersion(c.version).1 == nil && c.operator == ">=" ==> result == (version.Compare(theEcosystem().NewVersion(c.version).0) >= 0)   [C02 C20]
-//@   ensures other: c.operator != "==" && c.operator != "!=" && c.operator != "<" && c.operator != "<=" && c.operator != ">" && c.operator != ">=" && c.operator != "===" ==> !result   [C02 C20]
+//@   ensures other: c.operator != "==" && c.operator != "!=" && c.operator != "<" && c.operator != "<=" && c.operator != ">" && c.operator != ">=" && c.operator != "===" && c.operator != "notin" ==> !result   [C02 C20]
+// "notin" is the complement of the half-open interval [version, upper) that !=X.Y.* desugars to (C05)
+//@   ensures notin: theEcosystem().NewVersion(c.version).1 == nil && theEcosystem().NewVersion(c.upper).1 == nil && c.operator == "notin" ==> result == !(version.Compare(theEcosystem().NewVersion(c.version).0) >= 0 && version.Compare(theEcosystem().NewVersion(c.upper).0) < 0)   [C02 C05 C20]
+//@   ensures notin-bad-upper: theEcosystem().NewVersion(c.version).1 == nil && !(theEcosystem().NewVersion(c.upper).1 == nil) && c.operator == "notin" ==> !result   [C02 C05 C20]
 
 //@ func (*VersionRange).Contains
 //@   requires wfRange(pr)
